@@ -12,6 +12,13 @@
 (* RefuseAfterTorn = TRUE : the writer remembers a torn frame and refuses  *)
 (*                          every later write (the repaired protocol)      *)
 (*                 = FALSE: a later writer may still write in the window   *)
+(*                                                                         *)
+(* The coalescer's flusher (conn.go writeFlusherImpl) is modelled at its   *)
+(* own grain: a request is either refused on receipt (torn) or appended    *)
+(* and the timer armed; the timer firing flushes whatever was collected    *)
+(* and `broken` becomes the result of THAT flush.  ArmBeforeRefuse = TRUE  *)
+(* is the wrong variant in which a refused request still arms the timer:   *)
+(* the empty flush that follows clears `broken` (TLC must refute it).      *)
 (***************************************************************************)
 EXTENDS Integers, Sequences, FiniteSets, TLC
 
@@ -20,6 +27,7 @@ CONSTANTS Writers,          \* writer (request) identifiers
           Coalesce,         \* TRUE: writeCoalescer, FALSE: deadlineContextWriter
           RefuseAfterTorn,  \* see above
           AllowCancel,      \* a writer's context may end before its write starts
+          ArmBeforeRefuse,  \* wrong variant of the flusher (see above); FALSE = the code
           MaxFaults         \* socket write failures the environment may inject
 
 None == "none"
@@ -29,17 +37,18 @@ VARIABLES pc,        \* per writer: "idle" | "waiting" | "holding" | "queued" | 
           sem,       \* direct mode: holder of the semaphore or None
           batch,     \* coalescer: writers whose buffers the flusher has taken (sequence)
           wire,      \* bytes on the socket: sequence of writer ids (one entry per byte)
-          torn,      \* the writer has seen a frame cut short
+          torn,      \* the writer has seen a frame cut short (`broken` # nil)
+          armed,     \* coalescer: the flush timer is running
           quit,      \* connection closed (closeWithError ran)
           faults     \* failures injected so far
 
-vars == <<pc, res, sem, batch, wire, torn, quit, faults>>
+vars == <<pc, res, sem, batch, wire, torn, armed, quit, faults>>
 
 NoRes == [n |-> -1, err |-> None]
 
 Init == /\ pc = [w \in Writers |-> "idle"]
         /\ res = [w \in Writers |-> NoRes]
-        /\ sem = None /\ batch = <<>> /\ wire = <<>> /\ torn = FALSE /\ quit = FALSE /\ faults = 0
+        /\ sem = None /\ batch = <<>> /\ wire = <<>> /\ torn = FALSE /\ armed = FALSE /\ quit = FALSE /\ faults = 0
 
 Bytes(w, k) == [i \in 1 .. k |-> w]
 Return(w, n, e) == /\ res' = [res EXCEPT ![w] = [n |-> n, err |-> e]]
@@ -49,13 +58,18 @@ Return(w, n, e) == /\ res' = [res EXCEPT ![w] = [n |-> n, err |-> e]]
 Begin(w) ==
   /\ pc[w] = "idle"
   /\ \/ /\ AllowCancel /\ Return(w, 0, "ctx")                    \* ctx.Done() won
-        /\ UNCHANGED <<sem, batch>>
+        /\ UNCHANGED <<sem, batch, armed>>
      \/ /\ quit /\ Return(w, 0, "closed")                         \* quit won
-        /\ UNCHANGED <<sem, batch>>
+        /\ UNCHANGED <<sem, batch, armed>>
      \/ /\ ~Coalesce /\ sem = None                                \* semaphore acquired
-        /\ sem' = w /\ pc' = [pc EXCEPT ![w] = "holding"] /\ UNCHANGED <<res, batch>>
-     \/ /\ Coalesce /\ ~quit                                      \* handed to the flusher
-        /\ batch' = Append(batch, w) /\ pc' = [pc EXCEPT ![w] = "queued"] /\ UNCHANGED <<res, sem>>
+        /\ sem' = w /\ pc' = [pc EXCEPT ![w] = "holding"] /\ UNCHANGED <<res, batch, armed>>
+     \/ /\ Coalesce /\ ~quit                                      \* handed to the flusher (conn.go:993)
+        /\ IF RefuseAfterTorn /\ torn
+           THEN /\ Return(w, 0, "torn") /\ UNCHANGED batch          \* refused on receipt, timer left alone
+                /\ armed' = (armed \/ ArmBeforeRefuse)
+           ELSE /\ batch' = Append(batch, w) /\ pc' = [pc EXCEPT ![w] = "queued"] /\ UNCHANGED res
+                /\ armed' = TRUE                                  \* "start timer on first write"
+        /\ UNCHANGED sem
   /\ UNCHANGED <<wire, torn, quit, faults>>
 
 \* ---- direct mode: Write under the semaphore; the socket takes k <= len bytes
@@ -70,7 +84,7 @@ DirectWrite(w, k) ==
           /\ faults' = IF k < FrameLen[w] THEN faults + 1 ELSE faults
           /\ torn' = (torn \/ (0 < k /\ k < FrameLen[w]))
           /\ Return(w, k, IF k = FrameLen[w] THEN None ELSE "io")
-  /\ UNCHANGED <<batch, quit>>
+  /\ UNCHANGED <<batch, armed, quit>>
 
 \* ---- coalescer: the flusher writes the whole batch; the socket takes k bytes of it
 Sum(seq) == LET RECURSIVE S(_) S(i) == IF i > Len(seq) THEN 0 ELSE FrameLen[seq[i]] + S(i + 1) IN S(1)
@@ -88,17 +102,18 @@ BatchBytes(seq, k) ==
              IN Bytes(seq[i], n) \o B(i + 1, left - n)
   IN B(1, k)
 
+\* the timer fired (conn.go:1017): everything collected is written, `broken` = the result of this flush
 Flush(k) ==
-  /\ Coalesce /\ batch # <<>> /\ ~quit
+  /\ Coalesce /\ armed /\ ~quit
+  /\ armed' = FALSE
   /\ k \in 0 .. Sum(batch)
-  /\ IF RefuseAfterTorn /\ torn
-     THEN /\ res' = [w \in Writers |-> IF \E i \in 1 .. Len(batch) : batch[i] = w THEN [n |-> 0, err |-> "torn"] ELSE res[w]]
-          /\ pc' = [w \in Writers |-> IF \E i \in 1 .. Len(batch) : batch[i] = w THEN "done" ELSE pc[w]]
-          /\ UNCHANGED <<wire, torn, faults>>
+  /\ IF batch = <<>>
+     THEN /\ torn' = FALSE                    \* flush(nil, nil) reports nothing torn
+          /\ UNCHANGED <<res, pc, wire, faults>>
      ELSE /\ (k < Sum(batch) => faults < MaxFaults)
           /\ wire' = wire \o BatchBytes(batch, k)
           /\ faults' = IF k < Sum(batch) THEN faults + 1 ELSE faults
-          /\ torn' = (torn \/ \E i \in 1 .. Len(batch) : 0 < Attr(batch, k, i) /\ Attr(batch, k, i) < FrameLen[batch[i]])
+          /\ torn' = (\E i \in 1 .. Len(batch) : 0 < Attr(batch, k, i) /\ Attr(batch, k, i) < FrameLen[batch[i]])
           /\ res' = [w \in Writers |->
                        IF \E i \in 1 .. Len(batch) : batch[i] = w
                        THEN LET i == CHOOSE j \in 1 .. Len(batch) : batch[j] = w
@@ -118,14 +133,14 @@ FlusherQuit ==
   /\ res' = [w \in Writers |-> IF \E i \in 1 .. Len(batch) : batch[i] = w THEN [n |-> 0, err |-> "closed"] ELSE res[w]]
   /\ pc' = [w \in Writers |-> IF \E i \in 1 .. Len(batch) : batch[i] = w THEN "done" ELSE pc[w]]
   /\ batch' = <<>>
-  /\ UNCHANGED <<sem, wire, torn, quit, faults>>
+  /\ UNCHANGED <<sem, wire, torn, armed, quit, faults>>
 
 \* exec after a failed write (conn.go:1094-1112): closeWithError closes `quit`
 CallerClose(w) ==
   /\ pc[w] = "failed"
   /\ quit' = TRUE
   /\ pc' = [pc EXCEPT ![w] = "done"]
-  /\ UNCHANGED <<res, sem, batch, wire, torn, faults>>
+  /\ UNCHANGED <<res, sem, batch, wire, torn, armed, faults>>
 
 Next == \/ \E w \in Writers : Begin(w) \/ CallerClose(w) \/ \E k \in 0 .. FrameLen[w] : DirectWrite(w, k)
         \/ \E k \in 0 .. Sum(batch) : Flush(k)
